@@ -525,3 +525,14 @@ package utreexo
 //@ func (hnp *hashAndPos) Delete(i int)
 //@   requires 0 <= i && i < len(hnp.positions) && len(hnp.positions) == len(hnp.hashes)
 //@   ensures len(hnp.positions) == old(len(hnp.positions)) - 1 && len(hnp.hashes) == old(len(hnp.hashes)) - 1
+
+// C13, writing side: under the io.Writer contract (n < len(p) ==> err != nil) a successful write reports
+// exactly the bytes produced (ghost ioBytes).
+
+//@ func writeOne(n *polNode, w io.Writer) (cnt int64, err error)
+//@   ensures err == nil ==> cnt == int64(ioBytes - old(ioBytes))
+
+//@ func (p *Pollard) WriteTo(w io.Writer) (n int64, err error)
+//@   requires forall k in 0..len(p.Roots): p.Roots[k] != nil
+//@   ensures err == nil ==> n == int64(ioBytes)
+//@   loop 1: invariant totalBytes == int64(ioBytes)
